@@ -90,7 +90,7 @@ def generate(tier, rng):
     for _ in range(n_c):
         s = rng.random() < 0.5
         n = rng.randint(1 + int(s), 16)
-        f = rng.randint(0, n)
+        f = rng.randint(0, n) if rng.random() < 0.7 else rng.randint(-3, n + 3)
         r, o = rng.choice(ROUNDS), rng.choice(OVFS)
         sc = Fraction(rng.choice([1, 2, 3, 5, -1, -2, -3, 7, 10]), 1 << rng.choice([0, 0, 1, 2, 3]))
         bi = Fraction(rng.choice([0, 1, -1, 2, -2, 5, -7, 100, -100, 3]), 1 << rng.choice([0, 0, 1, 2]))
